@@ -469,6 +469,11 @@ def mon_c14(v: View) -> List[dict]:
     stop = failure_observed_at(v)
     if oc in ("spin", "hang"):
         return out  # C09's business
+    end = next((t for t, e in enumerate(tr) if e[0] in ("raise", "ret")), None)
+    if v.prog_expects_error and oc == "raise" and end is not None and (stop is None or stop > end):
+        # the call had already ended for another, legitimate reason (the program indexes the None of a deactivated node, as the
+        # plain function would) before the scheduler had seen the failing node's failure (it was still running, or finished unobserved)
+        return out
     if oc != "raise":
         out.append(V("failure_swallowed", f"node(s) {[f for _, f in failed]} raised but the call returned normally"))
         return out
